@@ -3,7 +3,7 @@
    the models in model/Ot.v and model/Vole.v (hand-written after
    pkg/ot/extension/softspoken/rounds.go, pkg/ot/base/{vsot,ecbbot}, pkg/mpc/rvole/bbot/rounds.go,
    pkg/base/binaryfields/bf128; tied to the code by the correspondence harness cmd/c09). *)
-From Coq Require Import List Bool Arith.
+From Coq Require Import List Bool Arith NArith.
 Import ListNotations.
 Require Import V.base.Fld V.model.Ot V.model.Vole V.proofs.Ot_proofs V.proofs.Vole_proofs.
 
@@ -235,3 +235,14 @@ Example C09_nonvacuous_vole :
                       [[true; false; true]; [false; false; true]; [true; true; false]]
                       [[false; false; true]; [true; false; false]; [true; false; true]])) = Some d.
 Proof. split; [exact gf2_flaws|]. vm_compute. eexists; reflexivity. Qed.
+
+(* the Gallina bf128 product itself (not only its extraction) on vectors on which the harness found
+   bf128.Mul and the extracted model to agree: x^127 * x = x^7+x^2+x+1, and two random pairs *)
+Example C09_bf128_vectors :
+  let el := bits_of_N 128 in
+  bits_eqb (bf_mul (el 0x80000000000000000000000000000000%N) (el 2%N)) (el 0x87%N) = true /\
+  bits_eqb (bf_mul (el 0xf8898c558e0b1984439bb70eefee78e3%N) (el 0x94744e3e0dbc190dccfe7bb1c535a9ea%N))
+           (el 0x62e066aa08884134e5d13b6150121bb2%N) = true /\
+  bits_eqb (bf_mul (el 0xff6b1465ad6a21b8a991a433af342ecf%N) (el 0x47221e95c1c8ddfa5b54b0e162345f78%N))
+           (el 0x301aa95c4db131917acc70bb3ab167e2%N) = true.
+Proof. vm_compute. repeat split. Qed.
